@@ -19,7 +19,7 @@ def spec(tier, seed):
     # (e) rename undo at ModifiedFile level
     for st in (0, 1, 2):
         inst.append(Instance("c04e_rename_b%d" % st, "patch", "rename_case(%d)" % st, unwind=12, unwindset={"memcmp.0": 3},
-                             features=True, cap=4, mem_gb=4, timeout_s=600, sub="C04e rename undo (move_out/move_in)",
+                             features=False, mem_gb=4, timeout_s=600, sub="C04e rename undo (move_out/move_in)",
                              params=dict(target_state=["absent", "exists empty", "exists non-empty"][st])))
     # (a) modify: apply + rollback
     one = []
@@ -55,6 +55,8 @@ def spec(tier, seed):
          "run": lambda f, v, w: _mir.vc_rollback_direction(f, v, w, r"^test_apply_with_fuzzes$", "c04d3")},
         {"name": "diagnostics::test_apply_after_reverting_other: undo in the recorded direction", "function": "diagnostics::test_apply_after_reverting_other", "target": "bin",
          "run": lambda f, v, w: _mir.vc_rollback_direction(f, v, w, r"^test_apply_after_reverting_other$", "c04d4")},
+        {"name": "ModifiedFiles::rollback: a rename undo restores the renamed-over file", "function": "ModifiedFiles::rollback", "target": "bin",
+         "run": lambda f, v, w: _mir.vc_rename_undo_restores(f, v, w)},
     ]
     return {
         "instances": inst,
